@@ -70,4 +70,11 @@ theorem C18_fixed_synth_token_line :
     (synthTokOld { file := .input 0, lineNo := 8 }).lineNo = 1 ∧
     (synthTok { file := .input 0, lineNo := 8 }).lineNo = 8 := by decide
 
+/-- the hypothesis `noNewlineUCN` of `C18_ucn_lines_kept` / `C18_line_final_partial` is needed: `"\u000a"⏎x` (not valid C:
+    6.4.3p2) — `convert_universal_chars` writes a real newline, and `x` (file offset 9, physical line 2) is numbered 3.
+    Not a finding (the input violates a constraint); recorded so that the hypothesis is seen to be sharp. -/
+theorem C18_ucn_newline_shifts :
+    let f := [34, 92, 117, 48, 48, 48, 97, 34, 10, 120, 10]
+    noNewlineUCN (sourceText f) = false ∧ lineNoAt f 9 = 2 ∧ lineNoFinal f 9 = 3 := by decide
+
 end ChibiVerif.Findings.C18
